@@ -4,5 +4,4 @@
 hydro_lang::setup!();
 
 pub mod atomics;
-pub mod paxos_gen;
 pub mod slices;
